@@ -438,6 +438,28 @@ def check_sched(pid, spec, args):
         finish(pid, violations, known, unconfirmed, vac)
 
 
+def busy_in_machinery(stacks):
+    """True if a goroutine that is running (not parked) sits in the harness, the stubs or the simulator: the
+    innermost frame that is not the Go runtime / standard library belongs to verifharness/ or verifsim/. Time
+    spent there is the machinery being slow, never a property of the code under test."""
+    for block in stacks.split("\n\n"):
+        lines = block.strip().splitlines()
+        if not lines or not re.match(r"goroutine \d+ \[(running|runnable)", lines[0]):
+            continue
+        if "simh.watchdog" in block:
+            continue
+        for ln in lines[1:]:
+            if ln.startswith("\t") or ln.startswith("created by"):
+                continue
+            fn = ln.strip().split("(")[0]
+            cut = fn.rfind("/") + 1
+            pkg = fn[:cut] + fn[cut:].split(".")[0]
+            if "." not in pkg.split("/")[0] and not pkg.startswith("verifharness"):
+                continue  # runtime / standard library frame (sort, bytes, ...)
+            return pkg.startswith("verifharness/") or "/verifsim/" in pkg
+    return False
+
+
 def handle_failures_sched(pid, spec, failures, binp, scratch, seed):
     # stuck runs: rebuild a failure file from the seed/index by running that single index again
     out = []
@@ -455,6 +477,9 @@ def handle_failures_sched(pid, spec, failures, binp, scratch, seed):
                     # machinery (that lock lives in code that is not instrumented), never a finding
                     print(stacks[:3000])
                     infra("a run stalls on a real (un-simulated) lock held by a parked task; instrument the package that owns it")
+                if busy_in_machinery(stacks):
+                    print(stacks[:3000])
+                    infra("a run spends the whole watchdog interval inside the harness / stubs / simulator (slow machinery, not a finding)")
                 os.makedirs(os.path.join(VERIF, "replays"), exist_ok=True)
                 f["stacks"] = stacks[:6000]
                 f["confirmed_in_fresh_process"] = True
